@@ -3,14 +3,16 @@
 
   Property theorems only (helper lemmas: CelloProofs/Lemmas/Hash*.lean).
   Model: Cello/Hash.lean. Source-derived facts: CelloGen/Hash.lean (constants, step lists and tail table of `hash_data`, whether
-  `Float_Hash` normalises zero, the folds of the five container hashes, the offsets and widths with which Tree, Table and Array
-  move the elements they hold) — regenerated from /repo on every run, so a source change that falsifies a statement below stops
+  `Float_Hash` normalises zero, the body of `Float_Cmp` as a program over `double`, whether the container `Assign`s return at
+  once for `self is obj`, the folds of the five container hashes, the offsets and widths with which Tree, Table and Array move
+  the elements they hold) — regenerated from /repo on every run, so a source change that falsifies a statement below stops
   this file from compiling.
 -/
 import Cello.Hash
 import CelloGen.Hash
 import CelloProofs.Lemmas.HashMurmur
 import CelloProofs.Lemmas.HashVal
+import CelloProofs.Lemmas.HashFloat
 import CelloProofs.Lemmas.HashCont
 import CelloProofs.Lemmas.HashObj
 import CelloProofs.Lemmas.HashLift
@@ -20,11 +22,12 @@ import CelloProofs.Lemmas.HashTreeInv
 import CelloProofs.Lemmas.HashMove
 import CelloProofs.Lemmas.HashShape
 import CelloProofs.Lemmas.HashTableW
+import CelloProofs.Lemmas.HashLookup
 set_option linter.unusedSimpArgs false
 set_option linter.unusedVariables false
 
 namespace Cello.Hash
-open CelloGen.Hash (Comb)
+open CelloGen.Hash (Comb FExpr FCond FStmt FRet)
 
 /-! ## hash_data -/
 
@@ -45,9 +48,9 @@ example : hashData [0x68, 0x65, 0x6c, 0x6c, 0x6f] = murmur64A 0xCe110 [0x68, 0x6
 theorem C10_eq_hash_int (a b : Int64) (h : intCmp a b = 0) : intHash a = intHash b := by
   rw [intCmp_eq_zero a b h]
 
-/-- Float, on the bit patterns, for all pairs of non-NaN doubles — including `+0.0`/`−0.0`, which compare equal and whose
-    hashes agree because `Float_Hash` (as it is in the source now) normalises zero. -/
-theorem C10_eq_hash_float (a b : UInt64) (ha : floatIsNaN a = false) (hb : floatIsNaN b = false)
+/-- Float, on the bit patterns (`floatCmp`: the decision of the model), for all pairs of non-NaN doubles — including
+    `+0.0`/`−0.0`, which compare equal and whose hashes agree because `Float_Hash` (as it is in the source now) normalises zero. -/
+theorem C10_eq_hash_float_bits (a b : UInt64) (ha : floatIsNaN a = false) (hb : floatIsNaN b = false)
     (h : floatCmp a b = 0) :
     floatHash CelloGen.Hash.floatHashNormalisesZero a = floatHash CelloGen.Hash.floatHashNormalisesZero b := by
   rcases floatCmp_eq_zero a b ha hb h with rfl | ⟨hza, hzb⟩
@@ -55,6 +58,71 @@ theorem C10_eq_hash_float (a b : UInt64) (ha : floatIsNaN a = false) (hb : float
   · simp [CelloGen.Hash.floatHashNormalisesZero, floatHash, hza, hzb]
 
 example : floatCmp 0x0000000000000000 0x8000000000000000 = 0 ∧ floatIsNaN 0x8000000000000000 = false := by decide
+
+/-- **`Float_Cmp` as it stands in src/Num.c is the plain sign of the difference**: the statements and the final `return` the
+    translator extracts are `double c = self - obj; return c > 0 ? 1 : c < 0 ? -1 : 0;` — no tolerance, no rounding, no other
+    branch. A comparison that treats nearly equal doubles as equal is another program and stops this from compiling. -/
+theorem C10_float_cmp_source_is_sign_of_difference :
+    CelloGen.Hash.floatCmpStmts = exactStmts ∧ CelloGen.Hash.floatCmpRet = exactRet := by decide
+
+/-- hence, over any double arithmetic in which the sign of `a - b` is the sign of the real difference (`SubSign`; NaN operands
+    give a NaN difference), the extracted `Float_Cmp` computes the bit-level decision of the model, for all 2^128 pairs -/
+theorem C10_float_cmp_source_eq_model (ops : FOps) (hs : SubSign ops) (a b : UInt64) :
+    floatCmpSrc ops a b = floatCmp a b := by
+  unfold floatCmpSrc
+  rw [C10_float_cmp_source_is_sign_of_difference.1, C10_float_cmp_source_is_sign_of_difference.2]
+  exact progCmp_exact ops hs a b
+
+/-- **the decision is made on the exact values**: for non-NaN doubles `floatCmp` is the sign of `floatVal a − floatVal b`
+    (the values in units of 2^-1074, exact for finite doubles, the infinities beyond every finite value), and it is 0 exactly when
+    the two are the same value — the same bit pattern, or the two zeros. Two distinct doubles 1 ulp apart are never eq. -/
+theorem C10_float_cmp_exact (a b : UInt64) (ha : floatIsNaN a = false) (hb : floatIsNaN b = false) :
+    (floatCmp a b = if floatVal a - floatVal b > 0 then 1 else if floatVal a - floatVal b < 0 then -1 else 0) ∧
+    (floatCmp a b = 0 ↔ a = b ∨ (floatIsZero a = true ∧ floatIsZero b = true)) := by
+  refine ⟨floatCmp_eq_sign_exact a b ha hb, fun h => floatCmp_eq_zero a b ha hb h, ?_⟩
+  rintro (rfl | ⟨hza, hzb⟩)
+  · exact floatCmp_self a
+  · have ka : floatKey a = 0 := by unfold floatKey; unfold floatIsZero at hza; simp only [beq_iff_eq] at hza; rw [hza]; split <;> simp
+    have kb : floatKey b = 0 := by unfold floatKey; unfold floatIsZero at hzb; simp only [beq_iff_eq] at hzb; rw [hzb]; split <;> simp
+    unfold floatCmp; simp [ha, hb, ka, kb]
+
+/-- neighbours are told apart: 0.1 + 0.2 against 0.3, 1 against its successor, the largest finite double against its predecessor,
+    the two smallest subnormals of opposite sign; the two zeros are one value -/
+example : floatCmp 0x3fd3333333333334 0x3fd3333333333333 = 1 ∧ floatCmp 0x3ff0000000000000 0x3ff0000000000001 = -1 ∧
+    floatCmp 0x7feffffffffffffe 0x7fefffffffffffff = -1 ∧ floatCmp 0x0000000000000001 0x8000000000000001 = 1 ∧
+    floatCmp 0x8000000000000000 0x0000000000000000 = 0 := by decide
+
+/-- **Float: `Float_Cmp(a, b) = 0 → Float_Hash(a) = Float_Hash(b)`** for the comparison *as extracted from the source*, run over
+    any double arithmetic satisfying `SubSign`, for all pairs of non-NaN doubles. The proof goes through
+    `C10_float_cmp_source_is_sign_of_difference`: it holds because the source compares by the exact sign of the difference. -/
+theorem C10_eq_hash_float (ops : FOps) (hs : SubSign ops) (a b : UInt64) (ha : floatIsNaN a = false) (hb : floatIsNaN b = false)
+    (h : floatCmpSrc ops a b = 0) :
+    floatHash CelloGen.Hash.floatHashNormalisesZero a = floatHash CelloGen.Hash.floatHashNormalisesZero b :=
+  C10_eq_hash_float_bits a b ha hb (by rw [← C10_float_cmp_source_eq_model ops hs a b]; exact h)
+
+/-- `SubSign` is satisfiable, and by IEEE-754 itself: `sfOps` — binary64 subtraction (round to nearest even, gradual underflow,
+    infinities, NaN) and the comparisons, computed exactly on the bit patterns — has it, for all pairs. (That the machine's
+    doubles agree with `sfOps` is tested by the driver on every pair of doubles the op files compare; it is not proved.) -/
+theorem C10_float_subsign_ieee : SubSign sfOps := subSign_sfOps
+
+example : floatCmpSrc sfOps 0x3fd3333333333334 0x3fd3333333333333 = 1 := by decide +kernel
+
+/-- `Float_Cmp` with a relative tolerance, as a program: `double a = self; double b = obj; double c = a - b;
+    if (fabs(c) < DBL_EPSILON * fmax(fabs(a), fabs(b))) { c = 0; } return c > 0 ? 1 : c < 0 ? -1 : 0;` -/
+def tolerantStmts : List FStmt := [.set 0 .self, .set 1 .obj, .set 2 (.sub (.loc 0) (.loc 1)),
+  .setIf (.lt (.fabs (.loc 2)) (.mul (.lit 0x3cb0000000000000) (.fmax (.fabs (.loc 0)) (.fabs (.loc 1))))) 2 (.lit 0)]
+def tolerantRet : FRet := .ite (.gt (.loc 2) (.lit 0)) (.val 1) (.ite (.lt (.loc 2) (.lit 0)) (.val (-1)) (.val 0))
+
+/-- **a tolerant comparison is refuted**: it is not the program of `C10_float_cmp_source_is_sign_of_difference`, and over the
+    IEEE-754 arithmetic `sfOps` (which satisfies `SubSign`) it calls 0.1 + 0.2 and 0.3 — two different doubles, 1 ulp apart — equal
+    while `Float_Hash` keeps them apart; likewise 1 and its successor, as elements and as keys alike. `eq ⇒ equal hash` fails for it. -/
+theorem C10_float_tolerant_cmp_refuted :
+    (tolerantStmts ≠ exactStmts) ∧ SubSign sfOps ∧
+    ∃ a b : UInt64, floatIsNaN a = false ∧ floatIsNaN b = false ∧ a ≠ b ∧
+      progCmp sfOps tolerantStmts tolerantRet a b = 0 ∧ progCmp sfOps exactStmts exactRet a b = 1 ∧ floatCmp a b = 1 ∧
+      floatHash CelloGen.Hash.floatHashNormalisesZero a ≠ floatHash CelloGen.Hash.floatHashNormalisesZero b :=
+  ⟨by decide, subSign_sfOps, 0x3fd3333333333334, 0x3fd3333333333333, by decide, by decide, by decide, by decide +kernel,
+    by decide +kernel, by decide, by decide⟩
 
 /-- String (`strcmp` = 0), Type (names compare 0), plain structs (`memcmp` = 0): equal bytes, hence equal `hash_data`. -/
 theorem C10_eq_hash_bytes (a b : Bytes) (h : bytesCmp a b = 0) : hashData a = hashData b := by
@@ -65,7 +133,7 @@ theorem C10_eq_hash_scalar (addr : Nat → Bytes) (s t : Scalar) (hs : s.isNaN =
     (h : scalarCmp addr s t = some 0) : scalarHash addr s = scalarHash addr t := by
   cases s <;> cases t <;> simp only [scalarCmp, reduceCtorEq] at h
   · simp only [Option.some.injEq] at h; exact C10_eq_hash_int _ _ h
-  · simp only [Option.some.injEq] at h; exact C10_eq_hash_float _ _ hs ht h
+  · simp only [Option.some.injEq] at h; exact C10_eq_hash_float_bits _ _ hs ht h
   · simp only [Option.some.injEq] at h; exact C10_eq_hash_bytes _ _ h
   · simp only [Option.some.injEq] at h; exact C10_eq_hash_bytes _ _ h
   · split at h
@@ -78,7 +146,7 @@ theorem C10_eq_hash_scalar (addr : Nat → Bytes) (s t : Scalar) (hs : s.isNaN =
 example : scalarCmp (fun _ => []) (.float 0) (.float 0x8000000000000000) = some 0 := by decide
 
 /-- known-finding candidate: with a NaN operand `Float_Cmp` returns 0 (the difference is NaN), so `eq(NaN, 1.0)` holds while
-    the hashes differ: the non-NaN hypothesis of `C10_eq_hash_float` cannot be dropped. -/
+    the hashes differ: the non-NaN hypothesis of `C10_eq_hash_float` / `C10_eq_hash_float_bits` cannot be dropped. -/
 theorem C10_float_nan_refuted :
     ∃ a b : UInt64, floatCmp a b = 0 ∧
       floatHash CelloGen.Hash.floatHashNormalisesZero a ≠ floatHash CelloGen.Hash.floatHashNormalisesZero b :=
@@ -274,6 +342,48 @@ theorem C10_tree_ops_refine (addr : Nat → Bytes) (L : Layout) (t : Sh) (k v : 
     (shRem addr L t k).map Sh.toList = treeRem addr t.toList k :=
   ⟨toList_shSet addr k v hk t hseq (fun e he => (hty e he).1), toList_shRem addr L k hk t hseq hty⟩
 
+/-- **a key eq to a stored one is found and overwritten — never a second entry; any other key, however close, is absent and
+    makes a new entry** (Tree, every search-tree shape, keys of one type, `k` not NaN): `Tree_Get` / `Tree_Mem` return the value of
+    the entry of the iteration sequence whose key compares 0 with `k` and fail exactly when there is none; `Tree_Set` keeps the
+    number of entries in the first case and adds one in the second. With `C10_float_cmp_exact` (eq only for the same value):
+    two doubles 1 ulp apart are two keys. -/
+theorem C10_tree_lookup_by_eq (addr : Nat → Bytes) (t : Sh) (k v : Scalar) (hk : k.isNaN = false)
+    (hseq : TreeSeq addr t.toList) (hty : ∀ e ∈ t.toList, e.1.ty = k.ty) :
+    shGet addr t k = seqGet addr t.toList k ∧
+    (∀ e ∈ t.toList, scalarCmp addr e.1 k = some 0 → (shGet addr t k).isSome = true ∧ (shSet addr t k v).toList.length = t.toList.length) ∧
+    ((∀ e ∈ t.toList, scalarCmp addr e.1 k ≠ some 0) → shGet addr t k = none ∧ (shSet addr t k v).toList.length = t.toList.length + 1) := by
+  have hg := toList_shGet addr k hk t hseq hty
+  have hs := toList_shSet addr k v hk t hseq hty
+  have hl := treeSet_length addr k v t.toList hseq hty
+  refine ⟨hg, fun e he h0 => ?_, fun hno => ?_⟩
+  · have hany : t.toList.any (fun e => keyEq addr e.1 k) = true := List.any_eq_true.mpr ⟨e, he, by simp [keyEq, h0]⟩
+    refine ⟨?_, by rw [hs, hl, hany]; rfl⟩
+    rw [hg]; unfold seqGet
+    obtain ⟨x, hx, hp⟩ := List.any_eq_true.mp hany
+    cases hf : List.find? (fun e => keyEq addr e.1 k) t.toList with
+    | none => exact absurd hp (by simpa using List.find?_eq_none.mp hf x hx)
+    | some y => rfl
+  · have hany : t.toList.any (fun e => keyEq addr e.1 k) = false := by
+      rw [List.any_eq_false]; intro x hx; simpa [keyEq] using hno x hx
+    refine ⟨?_, by rw [hs, hl, hany]; rfl⟩
+    rw [hg]
+    exact seqGet_none_of_ne addr _ k (fun x hx => by simpa [keyEq] using hno x hx)
+
+/-- non-vacuity: a Tree keyed by 0.3 does not hold 0.1 + 0.2; inserting that makes a second entry, inserting 0.3 again does not -/
+example :
+    let t := shOfEntries (fun _ => []) [(.float 0x3fd3333333333333, .int 1)]
+    shGet (fun _ => []) t (.float 0x3fd3333333333334) = none ∧ shGet (fun _ => []) t (.float 0x3fd3333333333333) = some (.int 1) ∧
+    (shSet (fun _ => []) t (.float 0x3fd3333333333334) (.int 2)).toList.length = 2 ∧
+    (shSet (fun _ => []) t (.float 0x3fd3333333333333) (.int 3)).toList = [(.float 0x3fd3333333333333, .int 3)] := by decide
+
+/-- the same on a Table (the probe loop of `Table_Get`; that the loop finds every stored key is the robin-hood invariant, C02) -/
+example :
+    let t := tableOfEntries (fun _ => []) [(.float 0x3fd3333333333333, .int 1), (.float 0, .int 5)]
+    tableGet (fun _ => []) t (.float 0x3fd3333333333334) = none ∧ tableGet (fun _ => []) t (.float 0x3fd3333333333333) = some (.int 1) ∧
+    tableGet (fun _ => []) t (.float 0x8000000000000000) = some (.int 5) ∧
+    (tableSet (fun _ => []) t (.float 0x3fd3333333333334) (.int 2)).nitems = 3 ∧
+    (tableSet (fun _ => []) t (.float 0x8000000000000000) (.int 3)).nitems = 2 := by decide
+
 /-- **a Table's slot copies move whole slots**: `memcpy(…, Table_Step(t))` over an empty or occupied slot leaves the source slot
     there (home word, key, value), and the two memcpys of `Table_Set_Move(…, move)` rebuild the rehashed entry in `sspace0` —
     for every header, key and value width -/
@@ -401,6 +511,87 @@ example : assignVal (fun _ => []) #[] .heap (.seq .array .str [.str [1]]) (.seq 
 /-- a stack String refuses (String_Assign: "Cannot reallocate String, not on heap"), a heap String takes the value -/
 example : assignVal (fun _ => []) #[] .stack (.sc (.str [1])) (.sc (.str [2, 3])) = .error .valueError ∧
     assignVal (fun _ => []) #[] .heap (.sc (.str [1])) (.sc (.str [2, 3])) = .ok (.sc (.str [2, 3])) := ⟨rfl, rfl⟩
+
+/-! ### assign(x, x) -/
+
+/-- the Int keys 4 and 9 share home slot 4 of 5 (see `kfTable` below) -/
+def kfTable0 : Table := tableOfEntries (fun _ => []) [(.int 4, .int 1), (.int 9, .int 2)]
+/-- the entries of a Table / Tree value in iteration order (`[]` for any other value) -/
+def Val.entriesD (v : Val) : List (Scalar × Scalar) := (mapEntries v).getD []
+
+
+/-- which self-assignments the statement covers: everything but a String (`String_Assign(s, s)` reallocates the buffer and then
+    copies from the old pointer: defined only if the block does not move) -/
+def SelfAssignCovered : Val → Prop
+  | .sc s => s.ty ≠ .str
+  | _ => True
+
+/-- a value compares eq to itself (a Tuple: when its items are scalar objects of the store) -/
+theorem valCmp_self (addr : Nat → Bytes) (st : Store) (v : Val) (hwf : ∀ ids, v = .tuple ids → ∃ xs, ids.mapM st.scalar = some xs) :
+    valCmp addr st v v = some 0 := by
+  cases v with
+  | sc s => simp [valCmp, scalarCmp_self]
+  | seq k ety items => exact valCmp_self_seq addr st _ _ items rfl rfl
+  | tuple ids =>
+    obtain ⟨xs, hm⟩ := hwf ids rfl
+    exact valCmp_self_seq addr st _ _ xs (by simp [seqItems, hm]) (by simp [seqItems, hm])
+  | table kt vt t =>
+    rw [valCmp_map (xs := t.entries) (ys := t.entries) rfl rfl]
+    exact mapCmp_self (scalarCmp_self addr) (scalarCmp_self addr) _
+  | tree kt vt t =>
+    rw [valCmp_map (xs := t.toList) (ys := t.toList) rfl rfl]
+    exact mapCmp_self (scalarCmp_self addr) (scalarCmp_self addr) _
+
+/-- **assign(x, x) leaves x as it was** — whenever it is carried out (a stack Tuple refuses with ValueError, a Type refuses),
+    for Int, Float, plain structs, Ref, Box, Array, List, Tuple, Table (any slot layout) and Tree (any shape): the value is
+    unchanged, so it hashes as before and is eq to what it was. For Array / List / Table / Tree this is the early return
+    `if (self is obj) { return; }` the translator finds before the `Clear` call (fix a3140e4). -/
+theorem C10_assign_eq_self (addr : Nat → Bytes) (st : Store) (cls : Cls) (v v' : Val) (hcov : SelfAssignCovered v)
+    (h : assignSelfVal addr st cls v = .ok v') :
+    v' = v ∧ valHash addr st v' = valHash addr st v ∧
+    ((∀ ids, v = .tuple ids → ∃ xs, ids.mapM st.scalar = some xs) → valCmp addr st v' v = some 0) := by
+  have hv : v' = v := by
+    unfold assignSelfVal assignSelfValWith srcSelfGuards at h
+    simp only [CelloGen.Hash.arrayAssignSelfGuard, CelloGen.Hash.listAssignSelfGuard, CelloGen.Hash.tableAssignSelfGuard,
+      CelloGen.Hash.treeAssignSelfGuard] at h
+    cases v with
+    | sc s =>
+      cases s with
+      | int x => simp [assignVal] at h; exact h.symm
+      | float x => simp [assignVal] at h; exact h.symm
+      | str x => exact absurd rfl hcov
+      | typ x => simp [assignVal] at h
+      | ptr b t => simp [assignVal] at h; exact h.symm
+      | raw k x => simp [assignVal] at h; exact h.symm
+    | seq k ety items => cases k <;> simp at h <;> exact h.symm
+    | tuple ids =>
+      simp only [assignVal] at h
+      split at h
+      · cases h
+      · cases h; rfl
+    | table kt vt t => simp at h; exact h.symm
+    | tree kt vt t => simp at h; exact h.symm
+  subst hv
+  exact ⟨rfl, rfl, fun hwf => valCmp_self addr st _ hwf⟩
+
+/-- non-vacuity: a Table whose entries sit out of their home slots (keys 4 and 9 in 5 slots: `copy` of it is *not* eq,
+    `C10_table_cmp_refuted`) is eq to itself after `assign(t, t)` -/
+example : (assignSelfVal (fun _ => []) #[] .heap (.table .int .int kfTable0)).toOption.map
+    (fun v' => (valCmp (fun _ => []) #[] v' (.table .int .int kfTable0), v'.entriesD)) =
+    some (some 0, [(.int 9, .int 2), (.int 4, .int 1)]) := by decide
+
+/-- **the early return is what carries the statement**: the same `Assign`s without it (the code before fix a3140e4) clear the
+    container and then iterate over the emptied source — `assign(x, x)` on a one-element Array, List, Table or Tree leaves it
+    empty (hash 0), not eq to what it was; with the guards of the source the same objects stay eq and keep their hash -/
+theorem C10_assign_self_unguarded_refuted :
+    ∀ v ∈ [Val.seq .array .int [.int 7], Val.seq .list .int [.int 7],
+           Val.table .int .int (tableOfEntries (fun _ => []) [(.int 7, .int 1)]), Val.tree .int .int (shOfEntries (fun _ => []) [(.int 7, .int 1)])],
+      (assignSelfValWith ⟨false, false, false, false⟩ (fun _ => []) #[] .heap v).toOption.map
+          (fun v' => (valCmp (fun _ => []) #[] v' v, valHash (fun _ => []) #[] v')) = some (some (-1), 0) ∧
+      valHash (fun _ => []) #[] v ≠ 0 ∧
+      (assignSelfVal (fun _ => []) #[] .heap v).toOption.map
+          (fun v' => (valCmp (fun _ => []) #[] v' v, valHash (fun _ => []) #[] v')) = some (some 0, valHash (fun _ => []) #[] v) := by
+  decide
 
 /-- which values `copy` is claimed for: every scalar but Type (Type_Copy refuses), Array, List, Tuple, Tree -/
 def CopyCovered : Val → Prop
